@@ -73,7 +73,11 @@ impl<'tcx> X<'tcx> {
             hir::PatKind::Ref(s, ..) => J::Obj(vec![("k", J::s("ref")), ("p", self.pat(s))]),
             hir::PatKind::Deref(s) => J::Obj(vec![("k", J::s("ref")), ("p", self.pat(s))]),
             hir::PatKind::Box(s) => J::Obj(vec![("k", J::s("ref")), ("p", self.pat(s))]),
-            hir::PatKind::Tuple(ps, _) => J::Obj(vec![("k", J::s("tuple")), ("subs", self.pats(ps))]),
+            hir::PatKind::Tuple(ps, _) => J::Obj(vec![
+                ("k", J::s("tuple")),
+                ("subs", self.pats(ps)),
+                ("ty", J::s(&self.tr.pat_ty(p).to_string())),
+            ]),
             hir::PatKind::Range(..) => J::Obj(vec![("k", J::s("range"))]),
             hir::PatKind::Slice(..) => J::Obj(vec![("k", J::s("slice"))]),
             _ => J::Obj(vec![("k", J::s("other"))]),
